@@ -496,9 +496,13 @@ func writeEvidence(cr *checkRun, tier string, seed int, total, discharged, viola
 		"wall_s":      wall.Seconds(),
 		"violations":  violations,
 	}
-	os.MkdirAll(filepath.Join(verifRoot, "evidence"), 0o755)
+	evDir := filepath.Join(verifRoot, "evidence")
+	if d := os.Getenv("GCV_EVIDENCE_DIR"); d != "" {
+		evDir = d // trial runs on a deliberately changed tree (seeds) must not overwrite the evidence of the real tree
+	}
+	os.MkdirAll(evDir, 0o755)
 	data, _ := json.MarshalIndent(ev, "", " ")
-	os.WriteFile(filepath.Join(verifRoot, "evidence", cr.spec.Property+".json"), data, 0o644)
+	os.WriteFile(filepath.Join(evDir, cr.spec.Property+".json"), data, 0o644)
 }
 
 func maxInt(a, b int) int {
